@@ -61,6 +61,7 @@ type Result struct {
 	Hash      uint64 // rolling hash of (task id, site) decisions
 	Trace     []string
 	Panic     string        // first panic recovered in a task (with stack)
+	PanicFunc string        // the function that panicked (first frame below panic() that is not the runtime's)
 	Stuck     bool          // idle limit hit while the main task had not returned
 	StepLimit bool          // MaxSteps hit
 	Virtual   time.Duration // virtual time covered
@@ -380,6 +381,7 @@ func (s *Sched) runTask(t *task, f func()) {
 			s.mu.Lock()
 			if s.panicMsg == "" {
 				s.panicMsg = fmt.Sprintf("panic in task %s(%s): %v\n%s", t.idString(), t.name, r, buf[:n])
+				s.res.PanicFunc = panicOrigin(string(buf[:n]))
 			}
 			s.mu.Unlock()
 		}
@@ -427,6 +429,27 @@ func AfterFunc(d time.Duration, f func()) *time.Timer {
 		s.mu.Unlock()
 		s.runTask(t, f)
 	})
+}
+
+// panicOrigin finds, in a stack printed inside a deferred recover, the function that called panic (or faulted).
+func panicOrigin(stack string) string {
+	lines := strings.Split(stack, "\n")
+	for i := 0; i < len(lines); i++ {
+		if !strings.HasPrefix(lines[i], "panic(") {
+			continue
+		}
+		for j := i + 2; j < len(lines); j += 2 {
+			f := lines[j]
+			if strings.HasPrefix(f, "runtime.") || strings.HasPrefix(f, "panic(") {
+				continue
+			}
+			if k := strings.LastIndex(f, "("); k > 0 {
+				f = f[:k]
+			}
+			return f
+		}
+	}
+	return ""
 }
 
 // CtxAfterFunc is context.AfterFunc whose callback runs as a task with an id fixed at registration (child of the
